@@ -728,7 +728,8 @@ pub fn run_campaign<P: Property>(prop: &P, tier: Tier, seed: u64) -> i32 {
 }
 
 pub fn write_evidence(id: &str, evidence: &Value) {
-    let dir = verif_root().join("evidence");
+    // experiments on a modified tree (seeded_test.sh) must not overwrite the evidence of the real tree
+    let dir = std::env::var("VERIF_EVIDENCE_DIR").map(PathBuf::from).unwrap_or_else(|_| verif_root().join("evidence"));
     let _ = std::fs::create_dir_all(&dir);
     let tmp = dir.join(format!("{}.json.tmp", id));
     std::fs::write(&tmp, serde_json::to_string_pretty(evidence).unwrap()).expect("write evidence");
